@@ -78,7 +78,16 @@ Definition dns_answer_fn (a x : list val) (h : heap) : libres :=
   | _ => bad_args
   end.
 
-(** dns::host *)
+(** dns::host: the two DNS messages (UDP payloads) it builds, [name] already encoded;
+    [ancount] is args.extra_len() as u16 *)
+Definition dns_host_query (name : bytes) : bytes :=
+  dns_hdr_bytes 4660 (dns_flags_word false 0 false false true false false false false 0) 1 0 0 0
+  ++ name ++ be16 1 ++ be16 1.
+Definition dns_host_rr (name : bytes) (ttlv ip : N) : bytes :=
+  name ++ be16 1 ++ be16 1 ++ be32 ttlv ++ be16 4 ++ be32 ip.
+Definition dns_host_response (name : bytes) (ttlv ancount : N) (ips : list N) : bytes :=
+  dns_hdr_bytes 4660 (dns_flags_word true 0 false false false true false false false 0) 1 ancount 0 0
+  ++ name ++ be16 1 ++ be16 1 ++ concat (map (dns_host_rr name ttlv) ips).
 Definition dns_host_fn (a x : list val) (h : heap) : libres :=
   match a with
   | [client; qname; ttl; ns; raw] =>
@@ -86,15 +95,9 @@ Definition dns_host_fn (a x : list val) (h : heap) : libres :=
     do r <- conv_bool raw;
     let name := dns_name_from qn in
     let flow := {| uf_cl := (cl, 32768); uf_sv := (nsip, 53); uf_raw := r |} in
-    let q := dns_hdr_bytes 4660 (dns_flags_word false 0 false false true false false false false 0) 1 0 0 0
-             ++ name ++ be16 1 ++ be16 1 in
-    do d1 <- uflow_client_dgram flow q; do d1c <- udp_csum d1;
+    do d1 <- uflow_client_dgram flow (dns_host_query name); do d1c <- udp_csum d1;
     do ips <- omapM conv_ip4 x;
-    let rr ip := name ++ be16 1 ++ be16 1 ++ be32 ttlv ++ be16 4 ++ be32 ip in
-    let resp := dns_hdr_bytes 4660 (dns_flags_word true 0 false false false true false false false 0) 1
-                  (wrap16 (len x)) 0 0
-                ++ name ++ be16 1 ++ be16 1 ++ concat (map rr ips) in
-    do d2 <- uflow_server_dgram flow resp; do d2c <- udp_csum d2;
+    do d2 <- uflow_server_dgram flow (dns_host_response name ttlv (wrap16 (len x)) ips); do d2c <- udp_csum d2;
     Ok (VPktGen [udp_packet d1c; udp_packet d2c], h)
   | _ => bad_args
   end.
